@@ -188,6 +188,7 @@ type seqResult struct {
 	labels     map[string]bool
 	nontrivial bool
 	infra      string
+	counts     map[string]int // per-request counters (sync_test.go)
 }
 
 func (r *seqResult) render() string {
